@@ -89,34 +89,61 @@ def fileData (b : Backend) (n : Inode) : Text :=
 def nameOf (tbl : List (Nat × Text)) (id : Int) : Option Text :=
   (tbl.reverse.find? fun e => decide ((e.1 : Int) = id)).map (·.2)
 
-/-- the header `walkFS` yields for the directory entry `p ↦ i` -/
+/-- canonical order of an attribute list: insertion sort by name (stable; names are distinct, so
+any sort gives this list — `archive/tar` writes PAX records sorted by key) -/
+def insertX (e : Name × Text) : List (Name × Text) → List (Name × Text)
+  | [] => [e]
+  | x :: xs => if e.1 ≤ x.1 then e :: x :: xs else x :: insertX e xs
+
+def sortX (l : List (Name × Text)) : List (Name × Text) := l.foldr insertX []
+
+/-- `link`: `if info.Mode()&os.ModeSymlink == os.ModeSymlink { link = fsys.Readlink(path) }` -/
+def hdrLink (n : Inode) : Text := if n.isSymlink then n.target else []
+
+/-- the type flag: `tar.FileInfoHeader`'s switch, then `if sys.Typeflag == TypeLink { h.Typeflag = TypeLink }`,
+then (back in `walkFS`) `if link != "" { header.Typeflag = tar.TypeSymlink }` -/
+def hdrKind (hl : Option Text) (n : Inode) : Kind :=
+  if hdrLink n ≠ [] then .symlink else if hl.isSome then .link else fihKind n
+
+/-- `h.Size = fi.Size()` for regular files, `h.Size = 0` for a hard link -/
+def hdrSize (b : Backend) (hl : Option Text) (n : Inode) : Nat :=
+  if hl.isSome then 0 else if fihKind n = .reg then effectiveSize (Cfg.impl b) n else 0
+
+/-- `h.Linkname = link` for symlinks, `h.Linkname = sys.Linkname` for a hard link -/
+def hdrLinkname (hl : Option Text) (n : Inode) : Text :=
+  match hl with
+  | some l => l
+  | none => if fihKind n = .symlink then hdrLink n else []
+
+/-- `if info.Mode()&os.ModeCharDevice == os.ModeCharDevice { dev = fsys.Readnod(path) }` -/
+def hdrDev (n : Inode) : Nat × Nat :=
+  let dev := unixMkdev n.major n.minor
+  if n.mode.testBit 21 then (unixMajor dev, unixMinor dev) else (0, 0)
+
+/-- "only capture xattrs for real objects in the FS": `ListXattrs` for `TypeReg` / `TypeDir` -/
+def hdrXattrs (k : Kind) (n : Inode) : List (Name × Text) :=
+  if k = .reg ∨ k = .dir then sortX n.xattrs else []
+
+/-- `writeTar`: `if f.info.Mode().IsRegular() && f.header.Size > 0 { io.CopyBuffer(tw, fsys.Open(f.path), buf) }` -/
+def hdrContent (b : Backend) (size : Nat) (n : Inode) : Text :=
+  if isRegularMode n.mode ∧ size > 0 then fileData b n else []
+
+/-- the header `walkFS` yields for the directory entry `p ↦ i` (with the body `writeTar` copies) -/
 def header (b : Backend) (fs : FS) (users groups : List (Nat × Text)) (p : List Name) (i : Ino) : Entry :=
   let n := fs.node i
-  -- if info.Mode()&os.ModeSymlink == os.ModeSymlink { link = fsys.Readlink(path) }
-  let link : Text := if n.isSymlink then n.target else []
-  -- tar.FileInfoHeader(info, link)
-  let k0 := fihKind n
-  let size0 := if k0 = .reg then effectiveSize (Cfg.impl b) n else 0
-  let ln0 := if k0 = .symlink then link else []
-  --   if sys.Typeflag == TypeLink { h.Typeflag = TypeLink; h.Size = 0; h.Linkname = sys.Linkname }
   let hl := hlOf b n p
-  let k1 := if hl.isSome then Kind.link else k0
-  let size1 := if hl.isSome then 0 else size0
-  let ln1 := match hl with | some l => l | none => ln0
-  -- if info.Mode()&os.ModeCharDevice == os.ModeCharDevice { dev = fsys.Readnod(path); Devmajor, Devminor = Major(dev), Minor(dev) }
-  let dev := unixMkdev n.major n.minor
-  let maj := if n.mode.testBit 21 then unixMajor dev else 0
-  let mnr := if n.mode.testBit 21 then unixMinor dev else 0
-  -- if link != "" { header.Typeflag = tar.TypeSymlink }
-  let k2 := if link ≠ [] then Kind.symlink else k1
-  -- only capture xattrs for real objects in the FS
-  let xa := if k2 = .reg ∨ k2 = .dir then sortNames n.xattrs else []
-  { path := p, kind := k2, mode := tarMode n.mode, uid := n.uid, gid := n.gid,
-    uname := (nameOf users n.uid).getD [], gname := (nameOf groups n.gid).getD [],
-    size := size1, linkname := ln1, devmajor := maj, devminor := mnr,
-    mtime := tarTime n.mtime, xattrs := xa,
-    -- writeTar: if f.info.Mode().IsRegular() && f.header.Size > 0 { io.CopyBuffer(tw, fsys.Open(f.path), buf) }
-    content := if isRegularMode n.mode ∧ size1 > 0 then fileData b n else [] }
+  { path := p,                                  -- header.Name = path
+    kind := hdrKind hl n,
+    mode := tarMode n.mode,
+    uid := n.uid, gid := n.gid,                -- from Sys()
+    uname := (nameOf users n.uid).getD [],     -- if name, ok := users[header.Uid]; ok { header.Uname = name }
+    gname := (nameOf groups n.gid).getD [],
+    size := hdrSize b hl n,
+    linkname := hdrLinkname hl n,
+    devmajor := (hdrDev n).1, devminor := (hdrDev n).2,
+    mtime := tarTime n.mtime,                  -- header.ModTime = info.ModTime()
+    xattrs := hdrXattrs (hdrKind hl n) n,
+    content := hdrContent b (hdrSize b hl n) n }
 
 /-! ## the image's passwd / group as `walkFS` reads them -/
 
@@ -246,7 +273,7 @@ def obsAttrs (b : Backend) (n : Inode) : Attrs :=
     target := if k = .symlink then n.target else [],
     devmajor := if k = .char ∨ k = .block then unixMajor dev else 0,
     devminor := if k = .char ∨ k = .block then unixMinor dev else 0,
-    xattrs := sortNames n.xattrs }
+    xattrs := sortX n.xattrs }
 
 /-- the built tree: every walk path with what is observable of its node; the identity is the node -/
 def observeTree (b : Backend) (fs : FS) : Tree :=
@@ -294,7 +321,7 @@ def nodeOK (n : Inode) : Bool :=
   (n.dir == n.mode.testBit 31) &&
   (obsKind n = .reg || obsKind n = .dir || obsKind n = .symlink || obsKind n = .char) &&
   (!n.mode.testBit 21 || obsKind n = .char) &&
-  (!n.isSymlink || n.target ≠ []) &&
+  (!n.isSymlink || (obsKind n = .symlink && n.target ≠ [])) &&
   (match n.te with | some te => te.size == te.content.length | none => true) &&
   (n.hardlinks.isEmpty || obsKind n = .reg || obsKind n = .char)
 
@@ -303,6 +330,14 @@ def nodeOK (n : Inode) : Bool :=
 structure WF (fs : FS) : Prop where
   inv : Inv fs
   nodes : ∀ i : Nat, nodeOK (fs.node i) = true
+
+/-- `Inv` and `nodeOK` checked node by node (nodes beyond the table are the default node) -/
+def wfCheck (fs : FS) : Bool :=
+  (fs.node 0).dir && nodeOK (default : Inode) &&
+  (List.range fs.nodes.length).all fun i =>
+    let n := fs.node i
+    decide ((n.children.map (·.1)).Nodup) && n.children.all (fun e => decide (e.2 < fs.nodes.length)) &&
+    (n.dir || n.children.isEmpty) && nodeOK n
 
 /-- decidable part of `WF` used by the driver to tag cases (`Inv` is preserved by every operation:
 `C17.inv_step`) -/
